@@ -167,6 +167,23 @@ class Lane(LaneBase):
                    'edges': [[names[i], names[j], '->'] for i, j in edges], 'validate': True,
                    'seed': rng.randrange(1 << 30),
                    'twin': {'n': n, 'edges': sorted([i, j] for i, j in edges), 'names': names}}
+        # 3b. long paths: a chain through all nodes plus a few forward chords (depth grows with the size of the graph;
+        #     the exhaustive families above never have a path of more than four edges)
+        for n in ((6, 7, 8, 10, 13, 16) if not thorough else (6, 7, 8, 9, 10, 11, 12, 13, 16, 17, 20)):
+            for rep in range(3 if not thorough else 8):
+                names = [f'{x}{i}' for i, x in enumerate(rng.sample(NAME_POOL, 8) * 3)][:n]
+                edges = [(i, i + 1) for i in range(n - 1)]
+                for _ in range(rep):
+                    i = rng.randrange(n - 2)
+                    j = rng.randrange(i + 2, n)
+                    if (i, j) not in edges:
+                        edges.append((i, j))
+                node_order = list(range(n))
+                rng.shuffle(node_order)
+                rng.shuffle(edges)
+                yield {'fam': 'relab', 'nodes': [names[i] for i in node_order],
+                       'edges': [[names[i], names[j], '->'] for i, j in edges], 'validate': True,
+                       'seed': rng.randrange(1 << 30), 'long': True}
         # 4. directed graphs with a cycle (validate=False), off the hypothesis: correspondence only
         cyc = []
         for n in (3, 4):
@@ -197,10 +214,18 @@ class Lane(LaneBase):
             g.add_node(x)
         from harness import gen
         tedges = list(tedges)
+        retype = []
         for k, (s, d, t) in enumerate(tedges):
             if validate and k == len(tedges) - 1 and len(tedges) >= 2:
                 gen.stress(g, ('c10-pre', tuple(nodes), tuple(tedges)))
-            g.add_edge(s, d, edge_type=EdgeType(t) if (k + len(nodes)) % 3 else t, validate=validate)
+            if validate and t == '->' and (2 * k + len(nodes) + len(tedges)) % 7 == 0:
+                # the edge arrives with another type and is directed afterwards
+                g.add_edge(s, d, edge_type=['o>', '--', '<>', 'oo', 'o-'][(k + len(nodes)) % 5])
+                retype.append((s, d))
+            else:
+                g.add_edge(s, d, edge_type=EdgeType(t) if (k + len(nodes)) % 3 else t, validate=validate)
+        for a, b in retype:
+            g.change_edge_type(a, b, EdgeType.DIRECTED_EDGE if len(retype) % 2 else '->')
         if validate:
             gen.stress(g, ('c10', tuple(nodes), tuple(tedges)))
             g = gen.reroute(g, ('c10', tuple(nodes), tuple(tedges)))[0]
@@ -552,6 +577,8 @@ class Lane(LaneBase):
             oracle += self.twin_check(case, recs)
         if fam in ('dag', 'relab') and len(nodes) >= 2:
             oracle += self.nodeform_check(g, nodes)
+        if fam == 'dag' and 2 <= len(nodes) <= 5 and case.get('seed', 0) % 4 == 1:
+            oracle += self.ts_orders_check(nodes, directed, case.get('seed', 0))
         if self.USE_TOPO and fam in ('dag', 'relab'):
             self._topo_fail = None
             tl, ti = self.topo_lines(g, nodes, directed)
@@ -566,6 +593,47 @@ class Lane(LaneBase):
             tags.append('pair_with_several_paths:' + ('yes' if nb_multi else 'no'))
         return {'lines': lines, 'impl': impl, 'oracle': oracle, 'nontrivial': ne >= 1,
                 'key': fam + '|' + repr(nodes) + '|' + repr(tedges), 'tags': tags}
+
+    @staticmethod
+    def ts_orders_check(nodes, directed, seed):
+        """the same DAG as a time-series graph whose lags grow with depth (past-only, future-only or straddling lag 0):
+        the default order is a time-sorted topological order and return_all is exactly the set of time-sorted ones
+        (brute force over the permutations; oracle only)"""
+        from cai_causal_graph import TimeSeriesCausalGraph
+        idx = {x: i for i, x in enumerate(nodes)}
+        n = len(nodes)
+        level = [0] * n
+        for _ in range(n):
+            for a, b in directed:
+                level[idx[b]] = max(level[idx[b]], level[idx[a]] + 1)
+        shift = [-max(level), 0, -(max(level) // 2)][seed // 4 % 3]          # past-only / future-only / straddling
+        lag = [l + shift for l in level]
+        nm = [f'v{i}' if lag[i] == 0 else (f'v{i} future(n={lag[i]})' if lag[i] > 0 else f'v{i} lag(n={-lag[i]})')
+              for i in range(n)]
+        try:
+            g = TimeSeriesCausalGraph()
+            for x in nm:
+                g.add_node(x)
+            for a, b in directed:
+                g.add_edge(nm[idx[a]], nm[idx[b]])
+            edges = [(nm[idx[a]], nm[idx[b]]) for a, b in directed]
+            lagof = dict(zip(nm, lag))
+            fwd = lambda o: all(o.index(a) < o.index(b) for a, b in edges)
+            srt = lambda o: all(lagof[o[i]] <= lagof[o[i + 1]] for i in range(len(o) - 1))
+            want = sorted(list(o) for o in itertools.permutations(sorted(nm)) if fwd(list(o)) and srt(list(o)))
+            got = sorted(list(o) for o in g.get_topological_order(return_all=True))
+            if got != want:
+                return [f'time-series twin (lags {sorted(set(lag))}): return_all gives {len(got)} orders, the time-sorted '
+                        f'topological orders are {len(want)}; edges {edges}']
+            one = list(g.get_topological_order())
+            if not (sorted(one) == sorted(nm) and fwd(one) and srt(one)):
+                return [f'time-series twin (lags {sorted(set(lag))}): default order {one} is not a time-sorted topological order']
+            plain_all = sorted(list(o) for o in g.get_topological_order(return_all=True, respect_time_ordering=False))
+            if plain_all != sorted(list(o) for o in itertools.permutations(sorted(nm)) if fwd(list(o))):
+                return ['time-series twin: return_all without time ordering is not the set of linear extensions']
+        except Exception as e:  # noqa: BLE001
+            return [f'time-series twin of a DAG raised {type(e).__name__} in get_topological_order']
+        return []
 
     def twin_check(self, case, recs):
         """invariance under renaming and construction order: compare with the canonical twin's answers"""
